@@ -41,10 +41,24 @@ def run(c, p):
         r = {"mean": lambda: a.mean(), "npmean": lambda: np.mean(a), "sum": lambda: a.sum(), "npsum": lambda: np.sum(a), "any": lambda: np.any(a), "all": lambda: np.all(a), "max": lambda: a.max(),
              "mall": lambda: a.all(), "many": lambda: a.any()}[op]()
         return ("val", r), a.to_array(), None
+    elif kind == "reduce_derived":
+        # reductions of arrays that are results themselves (scalar ufuncs keep the operand's run boundaries: neighbours may be equal)
+        s1 = pyint(c["s"])
+        d = {"gt": lambda: np.greater(a, s1), "mulzero": lambda: np.multiply(a, 0), "concat": lambda: np.concatenate([np.greater(a, s1), np.greater(a, s1)])}[p["how"]]()
+        r = {"any": lambda: d.any(), "npany": lambda: np.any(d), "all": lambda: d.all(), "sum": lambda: d.sum(), "max": lambda: d.max()}[op]()
+        return ("val", r), a.to_array(), None
+    elif kind == "r_dense":
+        other = typed(c["b"], "int64")          # a dense operand of another length: numpy refuses the shapes, so must the library
+        r = np.add(a, other) if op == "add" else np.add(other, a) if op == "radd" else a + other
+        return ("dense", np.asarray(r) if not hasattr(r, "to_array") else r.to_array()), a.to_array(), None
     elif kind == "concat":
         parts = [a, b] + ([RunLengthArray.from_array(typed(c["c3"], "int64"))] if c.get("c3") is not None else [])
         r = np.concatenate(parts)
     return ("rla", r.to_array(), r._events, r._values), a.to_array(), (b.to_array() if b is not None else None)
+
+
+def da_(a, dta):
+    return typed(a, dta)
 
 
 def _shared_dense(np_, op, da, s1, s2):
@@ -76,15 +90,39 @@ def sym(E, p, kf):
         c["s"] = E.int("s", -100, 100)
     elif kind == "rr_shared":
         c["s"], c["s2"] = E.int("s", -100, 100), E.int("s2", -100, 100)
+    elif kind == "reduce_derived":
+        c["s"] = E.int("s", -100, 100)
+    elif kind == "r_dense":
+        m = E.concretize(E.int("m", 1, p["n"] + 1))
+        if m == n:
+            raise __import__("symx.engine", fromlist=["x"]).PathPruned()
+        c["b"] = c14.gen_vals(E, m, "int64", "b")
     if kind == "reduce" and op in ("sum", "npsum", "mean", "npmean"):
         for i in range(n - 1):
             E.branch(a[i] == a[i + 1])          # fork the run layout: run lengths become concrete
     got = outcome(lambda: run(c, p))
     case = dict(p=p, c=c)
     if got["k"] != "tuple":
-        return dict(goal=False, got=got, case=case)
+        return dict(goal=(kind == "r_dense"), got=got, case=case)          # r_dense: refusing is the expected outcome
+    if kind == "r_dense":
+        return dict(goal=False, got=got, case=case)          # reached only if the call returned something
     res, a_after, b_after = got["items"]
     conds = [specs.obs_goal(a_after, dict(k="array", flat=a, shape=[n], dtype=dta))]
+    if kind == "reduce_derived":
+        s1 = pyint(c["s"])
+        dd = {"gt": lambda: np.greater(da_(a, dta), s1), "mulzero": lambda: np.multiply(da_(a, dta), 0), "concat": lambda: np.concatenate([np.greater(da_(a, dta), s1)] * 2)}[p["how"]]()
+        cellsd = cells(dd)
+        v = res["items"][1]
+        if op in ("any", "npany"):
+            want = z3.Or(*[(x if z3.is_bool(x) else x != 0) for x in cellsd])
+        elif op == "all":
+            want = z3.And(*[(x if z3.is_bool(x) else x != 0) for x in cellsd])
+        elif op == "sum":
+            want = z3.Sum([(z3.If(x, 1, 0) if z3.is_bool(x) else specs.I(x)) for x in cellsd])
+        else:
+            want = z3.Or(*cellsd) if all(z3.is_bool(x) for x in cellsd) else None
+        conds.append(specs.eqv(v["val"], want) if want is not None else True)
+        return dict(goal=specs.conj(conds), got=got, case=case)
     if kind == "rr":
         conds.append(specs.obs_goal(b_after, dict(k="array", flat=c["b"], shape=[n], dtype=dtb)))
     if kind == "concat":
@@ -166,6 +204,12 @@ def conc(case):
     a_obs = A(c["a"], [len(c["a"])], dta)
     b_obs = A(c["b"], [len(c["b"])], dtb) if c.get("b") is not None else {"k": "none"}
     import warnings
+    if kind == "r_dense":
+        return got, common.refused()
+    if kind == "reduce_derived":
+        dd = {"gt": lambda: np.greater(da, c["s"]), "mulzero": lambda: np.multiply(da, 0), "concat": lambda: np.concatenate([np.greater(da, c["s"])] * 2)}[p["how"]]()
+        v = {"any": lambda: bool(dd.any()), "npany": lambda: bool(dd.any()), "all": lambda: bool(dd.all()), "sum": lambda: int(dd.sum()), "max": lambda: (bool(dd.max()) if dd.dtype == bool else int(dd.max()))}[op]()
+        return got, dict(k="tuple", items=[dict(k="tuple", items=[dict(k="any"), dict(k="scalar", val=v, dtype="*")]), a_obs, {"k": "none"}]), {"dtype_matters": False}
     if kind == "reduce":
         if op in ("mean", "npmean"):
             m = common.cells(np.array([np.mean(da)]))[0]
@@ -233,6 +277,11 @@ def jobs(tier, seed):
     out.append(dict(kind="rr", op="logical_or", n=n, dta="bool", dtb="bool"))
     for op in ("between", "selfsub", "timesmask"):
         out.append(dict(kind="rr_shared", op=op, n=n))
+    for how, ops in (("gt", ("any", "npany", "all", "sum", "max")), ("mulzero", ("any", "all")), ("concat", ("any", "sum"))):
+        for op in ops:
+            out.append(dict(kind="reduce_derived", op=op, how=how, n=n))
+    for op in ("add", "radd", "plus"):
+        out.append(dict(kind="r_dense", op=op, n=3))
     out.append(dict(kind="rr", op="add", n=n, dta="uint8", dtb="int8"))
     return [dict(h="C16.arith", p=p) for p in out]
 
